@@ -92,7 +92,16 @@ Inductive lstep :=
 | LPublish (ms : list pmsg)        (* messages that reach the loop as one batch *)
 | LFollower (r : N) (o : Z)        (* a replication request from r: it has everything up to o *)
 | LShrink (r : N)
-| LExpand (r : N).
+| LExpand (r : N)
+| LRegain (keep : Z) (foreign : nat) (hw : Z).
+    (* another replica led for a term and this server leads again: of its log the offsets up to
+       `keep` are left, followed by `foreign` messages the other leader wrote; `hw` is the high
+       watermark that leader announced.  The follower stint itself is C02's; here its outcome is an
+       input.  What starts the new term is becomeLeader: pending acks are gone with the old commit
+       queue, the leader's own offset is its log end and every other replica starts from -1. *)
+
+(* a message written by the other leader: no publisher of this history waits for it *)
+Definition foreign_msg : pmsg := mkMsg 0%N PNone false (-1).
 
 Definition step (s : lstate) (x : lstep) : lstate * list ack :=
   match x with
@@ -110,6 +119,11 @@ Definition step (s : lstate) (x : lstep) : lstate * list ack :=
   | LExpand r =>
     if existsb (N.eqb r) (map fst (l_isr s)) then (s, [])
     else (mkL (l_log s) (l_isr s ++ [(r, -1)]) (l_replicas s) (l_min_isr s) (l_queue s) (l_hw s) (l_cc s), [])
+  | LRegain keep foreign hw =>
+    let log' := firstn (Z.to_nat (keep + 1)) (l_log s) ++ repeat foreign_msg foreign in
+    let nw := Z.of_nat (length log') - 1 in
+    (mkL log' (map (fun x => (fst x, if N.eqb (fst x) 0 then nw else -1)) (l_isr s)) (l_replicas s) (l_min_isr s) []
+         (Z.max (l_hw s) (Z.min hw nw)) (l_cc s), [])
   end.
 
 Definition init_state (replicas : list N) (min_isr : nat) (cc : bool) : lstate :=
@@ -120,6 +134,26 @@ Fixpoint run (s : lstate) (xs : list lstep) : lstate * list ack :=
   match xs with
   | [] => (s, [])
   | x :: r => let '(s1, a1) := step s x in let '(s2, a2) := run s1 r in (s2, a1 ++ a2)
+  end.
+
+(* ---- what the followers themselves said, in this leader term ----
+   The in-sync list holds what the leader believes each replica stores.  Beside it runs a record
+   that is no part of the leader's state: the progress reports received since this server last
+   became the leader.  A new term empties it -- what a replica reported to an earlier term's
+   leader says nothing about what it stores after following someone else in between. *)
+Definition reports := list (N * Z).
+Definition told (g : reports) (r : N) : Z :=
+  fold_right (fun x m => if N.eqb (fst x) r then Z.max m (snd x) else m) (-1) g.
+Definition gstep (g : reports) (x : lstep) : reports :=
+  match x with
+  | LFollower r o => (r, o) :: g
+  | LRegain _ _ _ => []
+  | _ => g
+  end.
+Fixpoint grun (s : lstate) (g : reports) (xs : list lstep) : lstate * reports :=
+  match xs with
+  | [] => (s, g)
+  | x :: r => grun (fst (step s x)) (gstep g x) r
   end.
 
 (* ---- correspondence ---- *)
